@@ -4,8 +4,9 @@ export GOFLAGS=-mod=mod GOPROXY=off
 cd /repo || exit 1
 gofmt -l . | grep -v '^$' && { echo "gofmt issues"; }
 go build ./... || exit 1
-go test -vet=off -count=1 ./... 2>&1 | grep -v "no test files" | tail -8
-if go test -vet=off -count=1 ./... >/dev/null 2>&1; then
+out=$(timeout 600 go test -vet=off -count=1 ./... 2>&1); rc=$?
+echo "$out" | grep -v "no test files" | tail -6
+if [ $rc -eq 0 ]; then
   git add -A && git commit -qm "fix: $1" && git log --oneline | head -1
 else
   echo "TESTS FAILED - not committed"; exit 1
